@@ -19,10 +19,31 @@
   Proved since: `edit_refines_*` — ONE live iterator refines the plain list + cursor of
   Hostlist/EditSpec.lean under create / next / remove (repaired D19) / reset / shift / pop (repaired
   D20) / push while the iterator has something left.
-  Not proved: more than one live iterator (F16-MULTI is false anyway), refinement for the op TEXT
-  level (`pushE` = parser ∘ push_range is C01's), uniq/sort with a live iterator,
-  duplicate-freedom after `uniq` (false: F16-UNIQ); these are tied to the plain-list specification
-  by the correspondence run only.
+  Proved since: `edit_refines_multi_*` — ANY finite set of live iterators (state = records + one
+  iterator per slot, spec = names + one cursor per slot, relation `RefM`): create / destroy / reset /
+  next on one iterator leave the others alone; shift / pop (repaired D19, D20) / push (no iterator at
+  the end) move EVERY cursor as the plain list does; uniq resets every iterator.  Method (Hostlist/EditMulti.lean): every structural
+  operation re-bases the iterators by ONE rule applied to each (`UnifM`, proved for
+  `hostlist_shift_iterators`, `hostlist_delete_range`, `hostlist_shift`, `hostlist_pop`,
+  `hostlist_push_range`), so the one-iterator theorem lifts (`RefM.lift`).
+
+  clause of the property                     theorem
+  ------------------------------------------ ---------------------------------------------------------
+  append / remove first / remove last        push_hosts, shift_hosts, pop_hosts (denotation, any iterators)
+  delete by position / name                  deleteNth_hosts; C02.delete_host_exact
+  positions returned by lookup               find_sound, find_eq_idxOf (small names); find_miss_big_suffix (F16-BIGSUFFIX)
+  counts                                     deleteNth_hosts (.count), uniq_count, Good invariants
+  hosts seen by EVERY live iterator          edit_refines_multi_new/_free/_reset/_next/_shift/_pop/_push/_uniq;
+                                             one iterator: edit_refines_* (also remove, uniq, push text)
+  duplicates removed, none lost              uniq_names, edit_refines_uniq (IF duplicate-free); uniq_keeps_duplicate (F16-UNIQ)
+
+  Not proved (correspondence + witnesses only): `hostlist_remove` / `hostlist_delete_nth` /
+  `hostlist_delete_host` as seen by OTHER live iterators (`hostlist_host_deleted`, the repair of
+  F16-MULTI / F16-DELETE-UNDER-ITERATOR: `multi_witness`, `delete_under_iterator_witness` and the
+  three-way correspondence with up to 3 live iterators); `hostlist_sort` (not in the editable model: judged against the
+  plain-list specification only); a push while an iterator stands at the end (true once F16-ENDPUSH is
+  repaired: `endpush_witness`; `AtPos` / `itNext_none_pos` of Hostlist/LemmasIterEdit.lean are the
+  invariant it needs); duplicate-freedom after `uniq` (false: F16-UNIQ).
 -/
 import PdshVerif.Hostlist.LemmasFind
 import PdshVerif.Hostlist.LemmasUniq
@@ -30,6 +51,8 @@ import PdshVerif.Hostlist.LemmasFindFirst
 import PdshVerif.Hostlist.EditRefine
 import PdshVerif.Hostlist.EditRefineText
 import PdshVerif.Hostlist.EditRefineUniq
+import PdshVerif.Hostlist.EditMultiKeyed
+import PdshVerif.Hostlist.EditMultiUniq
 
 namespace PdshVerif.C16
 open PdshVerif.Hostlist PdshVerif.Gen
@@ -211,6 +234,88 @@ theorem uniq_count (cfg : Cfg) (e e' : EL) (hg : e.Good) (hid : e.IdsOk)
     (hb : cfg.fixCmpTrunc = true ∨ ∀ r ∈ e.ranges, r.lo < 2147483648) (hsm : e.hosts.length < 2147483648)
     (h : uniqE cfg e = some e') : e'.nhosts = (e'.hosts.length : Int) ∧ e'.IdsOk :=
   ⟨(uniqE_keep cfg e e' hg hid hb hsm h).1.2, (uniqE_keep cfg e e' hg hid hb hsm h).2⟩
+
+/-! ### `edit_refines_multi`: ANY finite set of live iterators refines the plain list with one cursor each
+
+  `RefM cfg e p fr`: slot by slot the iterators of `e` and the cursors of `p` carry the same keys, and
+  each iterator, looked at on its own, refines its cursor (`Ref`); `fr k`: the last operation on
+  iterator `k` was a `hostlist_next` that handed out a host and nothing has changed the list since. -/
+
+/-- CREATE in a free slot -/
+theorem edit_refines_multi_new (cfg : Cfg) (e : EL) (p : EditSpec.PL) (fr : Nat → Bool) (h : RefM cfg e p fr) (k : Nat)
+    (hk : k ∉ e.its.map (·.1)) :
+    RefM cfg (itNew e k) (EditSpec.itNew p k) (fun j => if j = k then false else fr j) :=
+  new_refinesM cfg e p fr h k hk
+
+/-- DESTROY -/
+theorem edit_refines_multi_free (cfg : Cfg) (e : EL) (p : EditSpec.PL) (fr : Nat → Bool) (h : RefM cfg e p fr) (k : Nat) :
+    RefM cfg (itFree e k) (EditSpec.itFree p k) fr :=
+  free_refinesM cfg e p fr h k
+
+/-- RESET of one iterator -/
+theorem edit_refines_multi_reset (cfg : Cfg) (e : EL) (p : EditSpec.PL) (fr : Nat → Bool) (h : RefM cfg e p fr) (k : Nat) :
+    RefM cfg (itReset e k) (EditSpec.itReset p k) (fun j => if j = k then false else fr j) :=
+  reset_refinesM cfg e p fr h k
+
+/-- NEXT on one iterator: the name under ITS cursor; every other iterator keeps its place -/
+theorem edit_refines_multi_next (cfg : Cfg) (e : EL) (p : EditSpec.PL) (fr : Nat → Bool) (h : RefM cfg e p fr)
+    (k : Nat) (hk : k ∈ e.its.map (·.1)) :
+    ∃ a p' e', EditSpec.itNext p k = some (a, p') ∧ itNext cfg e k = .ok (a, e') ∧
+      RefM cfg e' p' (fun j => if j = k then a.isSome else fr j) :=
+  next_refinesM cfg e p fr h k hk
+
+/-- SHIFT: the first name is handed out, every iterator keeps what it had left -/
+theorem edit_refines_multi_shift (cfg : Cfg) (hfix : cfg.fixRemoveDepth = true) (e : EL) (p : EditSpec.PL)
+    (fr : Nat → Bool) (h : RefM cfg e p fr) (hf : ∀ r ∈ e.ranges, r.ShiftFits) :
+    ∃ e', shiftE cfg e = .ok ((EditSpec.shift p).1, e') ∧ RefM cfg e' (EditSpec.shift p).2 (fun _ => false) :=
+  shift_refinesM cfg hfix e p fr h hf
+
+/-- POP (repaired D19, D20): the last name is handed out; iterators that stood behind it stand at the end -/
+theorem edit_refines_multi_pop (cfg : Cfg) (hD19 : cfg.fixRemoveDepth = true) (hD20 : cfg.fixPopIter = true) (e : EL)
+    (p : EditSpec.PL) (fr : Nat → Bool) (h : RefM cfg e p fr) (hf : ∀ r ∈ e.ranges, r.ShiftFits) :
+    ∃ e', popE cfg e = .ok ((EditSpec.pop p).1, e') ∧ RefM cfg e' (EditSpec.pop p).2 (fun _ => false) :=
+  pop_refinesM cfg hD19 hD20 e p fr h hf
+
+/-- PUSH while no iterator stands at the end: every iterator will reach the new hosts -/
+theorem edit_refines_multi_push (cfg : Cfg) (hfs : cfg.fixIterSuffix = true) (e : EL) (p : EditSpec.PL)
+    (fr : Nat → Bool) (h : RefM cfg e p fr) (r : HRange) (hr : r.Good) (hnotend : ∀ b ∈ p.cur, b.2 < p.names.length) :
+    RefM cfg (pushRangeE e r) { p with names := p.names ++ r.hosts } (fun _ => false) :=
+  push_refinesM cfg hfs e p fr h r hr hnotend
+
+/-- UNIQ: whatever list `hostlist_uniq` leaves, IF it is free of duplicates (F16-UNIQ is the case where it
+    is not) it is admissible for the plain list and EVERY iterator starts over (hypotheses as in
+    `edit_refines_uniq`) -/
+theorem edit_refines_multi_uniq (cfg : Cfg) (hfs : cfg.fixIterSuffix = true) (e : EL) (p : EditSpec.PL) (fr : Nat → Bool)
+    (h : RefM cfg e p fr)
+    (hb : cfg.fixCmpTrunc = true ∨ ∀ r ∈ e.ranges, r.lo < 2147483648) (hsm : e.hosts.length < 2147483648)
+    (hreset : cfg.fixUniqReset = true ∨ 2 ≤ e.rs.length)
+    (e' : EL) (hu : uniqE cfg e = some e') (hnd : e'.hosts.Nodup) :
+    EditSpec.uniq p e'.hosts = some ⟨e'.hosts, p.cur.map fun (k, _) => (k, 0)⟩ ∧
+      RefM cfg e' ⟨e'.hosts, p.cur.map fun (k, _) => (k, 0)⟩ (fun _ => false) :=
+  uniq_refinesM cfg hfs e p fr h hb hsm hreset e' hu hnd
+
+/-- the empty list without iterators is in the relation (so is everything the operations above reach) -/
+theorem edit_refines_multi_init (cfg : Cfg) : RefM cfg EL.new EditSpec.PL.new (fun _ => false) := by
+  refine ⟨?_, List.nodup_nil, .nil⟩
+  have := edit_refines_new cfg EL.new ⟨List.nodup_nil, (by intro o ho; cases ho)⟩ ⟨(by intro r hr; cases hr), rfl⟩
+    (by intro q hq; cases hq) rfl
+  exact this
+
+/-- non-vacuity: two iterators on `a[1-3]` (pushed into the empty list), both advanced, a shift under them -/
+example (cfg : Cfg) (hfs : cfg.fixIterSuffix = true) (hfix : cfg.fixRemoveDepth = true) :
+    ∃ e p fr, RefM cfg e p fr ∧ e.its.length = 2 ∧ p.names.length = 2 := by
+  have h0 := edit_refines_multi_init cfg
+  have hg : (HRange.mk' ['a'] 1 3 1).Good := by decide
+  have h1 := edit_refines_multi_push cfg hfs _ _ _ h0 (HRange.mk' ['a'] 1 3 1) hg (by intro b hb; cases hb)
+  have h2 := edit_refines_multi_new cfg _ _ _ h1 0 (by decide)
+  have h3 := edit_refines_multi_new cfg _ _ _ h2 1 (by decide)
+  obtain ⟨e', _, h4⟩ := edit_refines_multi_shift cfg hfix _ _ _ h3 (by intro r hr; revert r hr; decide)
+  refine ⟨e', _, _, h4, ?_, ?_⟩
+  · have := All2.keys (fun a b hab => hab.1) h4.each
+    have hl := congrArg List.length this
+    simp only [List.length_map] at hl
+    rw [hl]; rfl
+  · rfl
 
 /-! ### iterator scenarios (the recorded defects and their repairs) -/
 /-- run `hostlist_next` n times on iterator k -/
